@@ -78,5 +78,27 @@ pub fn run(_seed: u64, _tier: &str, out: &mut Out) {
         let _ = ProgressFinish::AndLeave;
         out.emit(&format!("LOCKS FX={} {} {} {}", crate::common::fx("locks"), call, if in_multi { "multi" } else { "single" }, if ticker { "ticker" } else { "noticker" }), &format!("{trace} ORACLE {verdict}"));
     }}}
+    // the steady-ticker thread itself: one full loop iteration as recorded from the real thread
+    for in_multi in [false, true] {
+        vh::set_now_ns(1_000_000_000_000);
+        let rec = Recorder::new(10, 40, false);
+        let mp = MultiProgress::with_draw_target(ProgressDrawTarget::term_like(Box::new(rec.clone())));
+        let pb = if in_multi { mp.add(ProgressBar::new(10)) } else { ProgressBar::with_draw_target(Some(10), ProgressDrawTarget::term_like(Box::new(rec.clone()))) };
+        pb.set_style(ProgressStyle::with_template("{msg}").unwrap());
+        LOG.lock().unwrap().clear();
+        pb.enable_steady_tick(Duration::from_millis(2));
+        std::thread::sleep(Duration::from_millis(60));
+        pb.disable_steady_tick();
+        let evs: Vec<String> = { let log = LOG.lock().unwrap(); log.iter().filter(|(n, _, _, _)| n != "main").filter_map(|(_, ev, c, _)| match ev {
+            Ev::Acquired => Some(format!("acq{c}")), Ev::Release => Some(format!("rel{c}")), Ev::WaitBegin => Some("wait".to_string()), _ => None }).collect() };
+        LOG.lock().unwrap().clear();
+        // first complete iteration: from the first acquisition of the bar state to the release of the flag after the wait
+        let start = evs.iter().position(|e| e == "acqS").unwrap_or(0);
+        let end = evs.iter().skip(start).position(|e| e == "relC").map(|i| start + i + 1).unwrap_or(evs.len());
+        let trace = evs[start..end].join(" ");
+        let verdict = if evs[start..end].iter().any(|e| e == "wait") { "ok".to_string() } else { format!("FAIL ticker-loop no condvar wait in an iteration of the ticker thread: {trace}") };
+        std::mem::forget(pb); std::mem::forget(mp);
+        out.emit(&format!("LOCKS FX={} ticker_loop {} ticker", crate::common::fx("locks"), if in_multi { "multi" } else { "single" }), &format!("{trace} ORACLE {verdict}"));
+    }
     vh::set_observer(None);
 }
